@@ -59,10 +59,11 @@ CLAIMED = {
          "are the corresponding operations on the element sequence with the improper tail as final element.",
          "6/C21", "Coq proof: equivalence/hash/list laws over the term model + exhaustive small-term differential run through the real PartialEq, Hash, HashMap and list API",
          "The byte-level Hasher protocol of derive(Hash) is abstracted to a token sequence; Display is checked by a Python oracle only."),
- "C24": ("The relation definitions are re-translated from src/relation/*.rs on every run. UNBOUNDED soundness: for append and member, in "
-         "every argument mode, for arbitrary (also partial, non-ground) terms, any search kind, fuel and number of steps, every answer the "
-         "engine delivers satisfies, under every valuation solving the answer's substitution, the inductive relation (c = a with b "
-         "appended; x is an element of l) - through a general theorem that everything the engine delivers is derivable in a declarative "
+ "C24": ("The relation definitions are re-translated from src/relation/*.rs on every run. UNBOUNDED soundness: for append, member, and - "
+         "with the stored disequalities of the answer - rember, member1, distinct and permute (the latter against the relation as "
+         "defined), in every argument mode, for arbitrary (also partial, non-ground) terms, any search kind, fuel and number of steps, every answer the "
+         "engine delivers satisfies, under every valuation solving the answer, the inductive relation (c = a with b "
+         "appended; x is an element of l; out is l without the first x; elements pairwise different) - through a general theorem that everything the engine delivers is derivable in a declarative "
          "big-step semantics of goals. BOUNDED completeness + exactness: for every list over {1,2} (length <= 3/4) the engine model, "
          "evaluated inside Coq (forallb by vm_compute, lifted), gives exactly the answers of the Vec-based definition for append (both "
          "directions), member, member1, rember, distinct, cons/first/rest/empty. Beyond that scope all argument modes are compared with "
